@@ -186,6 +186,27 @@ let opes (w : string array) =
   let ws = opes_run rounds (nat_of_int n) in
   Printf.printf "O %s\n" (String.concat ";" (List.map (fun l -> if l = [] then "-" else String.concat "," l) ws))
 
+(* OPESSUM <s0> <s20> <counter0> <kbt> h,h,..;h,h,..  (one list of kernel weights per round, rank order)
+   -> after every round: sum of weights, sum of squared weights, counter, neff, rct *)
+let opessum (w : string array) =
+  let s0 = fl w.(1) and s20 = fl w.(2) and c0 = float_of_string w.(3) and kbt = fl w.(4) in
+  let rounds = if Array.length w > 5 then List.map (fun r -> List.map fl (split ',' r)) (split ';' w.(5)) else [] in
+  let out = ref [] in
+  let rec go done_ rest =
+    match rest with
+    | [] -> ()
+    | r :: tl ->
+      let d = done_ @ [ r ] in
+      let sw = opes_sums fgrp s0 d in
+      let sw2 = opes_sums fgrp s20 (List.map (List.map (fun h -> h *. h)) d) in
+      let cnt = c0 +. float_of_int (List.fold_left (fun a x -> a + List.length x) 0 d) in
+      let neff = (1.0 +. sw) *. (1.0 +. sw) /. (1.0 +. sw2) in
+      let rct = kbt *. log (sw /. cnt) in
+      out := Printf.sprintf "%s,%s,%d,%s,%s" (hex sw) (hex sw2) (int_of_float cnt) (hex neff) (hex rct) :: !out;
+      go d tl in
+  go [] rounds;
+  print_endline ("S " ^ String.concat ";" (List.rev !out))
+
 let () =
   try
     while true do
@@ -198,6 +219,7 @@ let () =
          | "SYS" -> sysm w
          | "CZAR" -> czar w
          | "OPES" -> opes w
+         | "OPESSUM" -> opessum w
          | _ -> print_endline "?")
     done
   with End_of_file -> ()
